@@ -448,12 +448,22 @@ def rule_parallel_writes(chk, db, cfgname):
                             rn = root.get('n') if root.get('k') == 'var' else ('this' if root.get('k') == 'this' else None)
                             if rn is None or rn in locals_ or rn in params:
                                 continue
+                            # the subscripts on the access path of the written object itself (a subscript nested inside
+                            # another index expression - table[i] in out[table[i]] - selects data, not the slot)
                             idxs = []
-                            for y in T.walk(l0):
-                                if isinstance(y, dict) and y.get('k') == 'sub':
+                            y = l0
+                            while isinstance(y, dict):
+                                if y.get('k') == 'sub':
                                     idxs.append(y.get('idx'))
-                                if isinstance(y, dict) and y.get('k') == 'call' and y.get('op') == '[]' and y.get('args'):
+                                    y = T.strip_copy(y['base'])
+                                elif y.get('k') == 'call' and y.get('op') == '[]' and y.get('args') and \
+                                        y.get('recv') is not None:
                                     idxs.append(y['args'][0])
+                                    y = T.strip_copy(y['recv'])
+                                elif y.get('k') == 'mem' and isinstance(y.get('base'), dict):
+                                    y = T.strip_copy(y['base'])
+                                else:
+                                    break
 
                             def slot(ix):
                                 names = {y['n'] for y in T.walk(ix) if isinstance(y, dict) and y.get('k') == 'var'}
